@@ -319,7 +319,85 @@ def run(ctx, config):
     rc = evbmodel.rule_model(P, "C13-counts")
     rc.desc = "pending callback counts (n_add_for_cb / n_del_for_cb) after each evbuffer operation equal the bytes it added and removed, on every layout of the family"
     rules.append(rc)
+    rules.append(rule_pending_kept(P))
     return rules
+
+
+def rule_pending_kept(P):
+    """evbuffer_invoke_callbacks_ on heap images of the callback list: pending counts may be discarded only when the buffer has no callback at all; with a
+    callback registered (enabled or momentarily disabled) they are either reported now (immediate mode) or kept and the deferred report scheduled"""
+    from ..interp import run_all, normx, nkey
+    r = Rule("C13-pending-kept", "K6", "pending added/deleted counts are dropped only when no callback is registered; otherwise they are reported or kept for the deferred report", floor=8)
+    f = P.fn("evbuffer_invoke_callbacks_")
+    enabled = None
+    for g in P.fns_in("buffer.c"):
+        for x in [el.e for el in g.elems()] + [b.term["cond"] for b in g.branch_blocks()]:
+            for q in walk(x):
+                if is_e(q, "int") and len(q) > 2 and q[2] == "EVBUFFER_CB_ENABLED":
+                    enabled = q[1]
+    if enabled is None:
+        import re, os
+        from ..facts import REPO
+        m = re.search(r"#define\s+EVBUFFER_CB_ENABLED\s+(\d+)", open(os.path.join(REPO, "include/event2/buffer.h")).read())
+        enabled = int(m.group(1)) if m else None
+    if enabled is None:
+        r.brk("EVBUFFER_CB_ENABLED not found")
+        return r
+    B = lambda fl: ("@", "buf", "evbuffer.%s" % fl)
+    Q = ("sub", "buf", "evbuffer.callbacks")
+    for ncb, flagsets in ((0, [()]), (1, [(enabled,), (0,)]), (2, [(enabled, 0), (0, 0), (0, enabled)])):
+        for flags in flagsets:
+            for deferred in (0, 1):
+                for sched in (0, 1):
+                    env = {"#typed": 1, "event_debug_logging_mask_": 0, f.params[0][0]: PPtr("buf"), ("@", "buf", "#zero"): 1,
+                           B("callbacks"): PPtr(Q), ("@", Q, "evbuffer_cb_queue.lh_first"): PPtr("cb0") if ncb else 0,
+                           B("n_add_for_cb"): 8, B("n_del_for_cb"): 3, B("deferred_cbs"): deferred, B("lock"): 0, B("parent"): 0, B("cb_queue"): 9, B("refcnt"): 1}
+                    for k in range(ncb):
+                        o = "cb%d" % k
+                        nx = ("sub", o, "evbuffer_cb_entry.next")
+                        env[("@", o, "evbuffer_cb_entry.flags")] = flags[k]
+                        env[("@", o, "evbuffer_cb_entry.next")] = PPtr(nx)
+                        env[("@", nx, "evbuffer_cb_entry::next.le_next")] = PPtr("cb%d" % (k + 1)) if k + 1 < ncb else 0
+
+                    def hook(el, e_):
+                        n = callee_name(el.e)
+                        if n == "event_deferred_cb_schedule_":
+                            e_["#ops"] = e_.get("#ops", ()) + ("schedule",)
+                            return sched
+                        if n == "evbuffer_run_callbacks":
+                            e_["#ops"] = e_.get("#ops", ()) + ("run",)
+                            return 0
+                        if n in ("evbuffer_incref_and_lock_", "bufferevent_incref", "evthread_is_debug_lock_held_"):
+                            return 0
+                        return None
+                    outs = [o for o in run_all(f, (f.entry, 0), env, lambda el: False, P, hook, max_steps=300) if not (o.kind == "exit" and o.why == "noreturn")]
+                    for o in outs:
+                        if o.kind == "unknown":
+                            r.brk("evbuffer_invoke_callbacks_ (%d callbacks): %s" % (ncb, o.why))
+                            return r
+                        na, nd = o.env.get(B("n_add_for_cb")), o.env.get(B("n_del_for_cb"))
+                        ops = o.env.get("#ops", ())
+                        if ncb == 0:
+                            ok = (na, nd) == (0, 0) and not ops
+                            want = "counts reset, nothing to call"
+                        elif deferred:
+                            ok = (na, nd) == (8, 3) and ops[:1] == ("schedule",)
+                            want = "deferred report scheduled, counts kept until it runs"
+                        else:
+                            ok = "run" in ops and (na, nd) == (8, 3)
+                            want = "evbuffer_run_callbacks reports now (it resets the counts itself)"
+                        r.inst((ncb, flags, deferred, sched), {"callbacks": ncb, "flags": list(flags), "deferred": deferred, "actions": list(ops), "counts_after": [na, nd]})
+                        if not ok:
+                            r.bad("K6:evbuffer_invoke_callbacks_:pending-counts", "%s:%d" % (f.file, f.line), f.name,
+                                  "%d callback(s) with flags %s, %s mode: does %s and leaves added/deleted = %s/%s; protocol: %s — a change made while the callbacks were enabled must still be reported when they are re-enabled" % (
+                                      ncb, [hex(x) for x in flags], "deferred" if deferred else "immediate", list(ops), na, nd, want))
+    seen, uniq = set(), []
+    for f_ in r.findings:
+        if f_.key not in seen:
+            seen.add(f_.key)
+            uniq.append(f_)
+    r.findings = uniq
+    return r
 
 
 def exit_avoiding_with_zero_skip(fn, el, inv, amt):
